@@ -42,4 +42,15 @@ int w_cmp(int first, int nA, int nB, const int* pubsA, const int* pubsB, const i
   return ab;
 }
 void h_cmp() { w_cmp(nondet_int(), nondet_int(), nondet_int(), (const int*)nondet_ptr(), (const int*)nondet_ptr(), (const int*)nondet_ptr(), nondet_int(), (int*)nondet_ptr()); REACH; }
+
+// the view of a chain slice that starts at the fork point (height fork_h) and ends at the tip (height tip_h), built as the
+// ReducedPublicationView constructor does: first = firstKeystoneAfter(fork_h), last = highestKeystoneAtOrBefore(tip_h)
+int w_view_empty(int fork_h, int tip_h) {
+  RpvShell v;
+  v.keystoneInterval = KI;
+  v.firstKeystoneHeight = firstKeystoneAfter(fork_h, KI);
+  v.lastKeystoneHeight = highestKeystoneAtOrBefore(tip_h, KI);
+  return v.empty();
+}
+void h_view_empty() { w_view_empty(nondet_int(), nondet_int()); REACH; }
 }
